@@ -30,6 +30,12 @@ def make_scheduler(conf: dict, seed: int, searcher="random", **extra):
         kw["cost_attr"] = COST
     if conf["type"] in ("rush_stopping", "rush_promotion"):
         kw["rung_system_kwargs"] = {"num_threshold_candidates": conf["nthr"]}
+    if conf.get("sd", "none") != "none":
+        kw["searcher_data"] = conf["sd"]
+        kw["register_pending_myopic"] = bool(conf.get("myopic", False))
+        kw["searcher"] = conf.get("searcher", "bayesopt")
+        # model fitting is switched off by construction: get_config stays in its random phase
+        kw["search_options"] = {"num_init_random": conf.get("num_init_random", 10000), "debug_log": False}
     kw.update(extra)
     return HyperbandScheduler(cs, **kw)
 
@@ -40,6 +46,25 @@ def rung_sizes(sched) -> List[List[int]]:
         for rung in rs._rungs:
             out.append([s, rung.level, len(rung)])
     return out
+
+
+def searcher_state_event(sched) -> dict:
+    """Projection of the public ``searcher.state_transformer.state`` to (observations, pending evaluations);
+    observation values are mapped back to the reported convention."""
+    from syne_tune.optimizer.schedulers.searchers.bayesopt.datatypes.common import INTERNAL_METRIC_NAME
+    srch = sched.searcher
+    state = srch.state_transformer.state
+    rev = (lambda x: x) if srch.map_reward is None else srch.map_reward.reverse
+    obs = []
+    for ev in state.trials_evaluations:
+        vals = ev.metrics.get(INTERNAL_METRIC_NAME, {})
+        if isinstance(vals, dict):
+            for r, v in vals.items():
+                obs.append([int(ev.trial_id), int(r), int(round(rev(v)))])
+        else:
+            obs.append([int(ev.trial_id), 0, int(round(rev(vals)))])
+    pend = [[int(p.trial_id), int(p.resource) if p.resource is not None else 0] for p in state.pending_evaluations]
+    return {"a": "SS", "obs": obs, "pend": pend}
 
 
 def current_cap(sched, conf) -> int:
@@ -72,6 +97,8 @@ class Episode:
     def _rs(self):
         if self.log_rs:
             self.ev.append({"a": "RS", "sz": rung_sizes(self.sched)})
+        if self.conf.get("sd", "none") != "none":
+            self.ev.append(searcher_state_event(self.sched))
 
     def _crash(self, where, exc):
         """The code under test raised on a legal call: logged as an event, judged by the specification."""
@@ -166,7 +193,7 @@ class Episode:
         c = self.conf
         tconf = {"levels": list(c["levels"]), "maxt": c["maxt"], "nbr": c["nbr"], "perbr": c["perbr"], "type": c["type"],
                  "min": c["min"], "mra": c["mra"], "ckpt": c["ckpt"], "nthr": c.get("nthr", 0), "vals": [0], "costs": [0],
-                 "faults": True, "cap0": c["cap0"]}
+                 "faults": True, "cap0": c["cap0"], "sd": c.get("sd", "none"), "myopic": bool(c.get("myopic", False))}
         return {"id": tid, "conf": tconf, "ev": self.ev}
 
 
@@ -174,7 +201,7 @@ def conf_from_constants(k: dict) -> dict:
     """TLC constants (AsyncHB_MC) -> driver configuration."""
     levels = sorted(k["LevelsC"])
     conf = {"levels": levels, "maxt": k["MaxT"], "nbr": k["NBr"], "perbr": k["PerBr"], "type": k["Type"], "min": k["IsMin"],
-            "mra": k["MRA"], "ckpt": k["Ckpt"], "nthr": k["NThr"]}
+            "mra": k["MRA"], "ckpt": k["Ckpt"], "nthr": k["NThr"], "sd": k.get("SD", "none"), "myopic": k.get("Myopic", False)}
     if k["Type"] == "pasha":
         n = len(levels)
         idx = min(n - 1, 2)
